@@ -84,6 +84,13 @@ def gen(rng, tier):
     from . import c09 as C09
     for c in C09.pattern_history_cases():
         yield {"segs": c["query"]["first"]["segs"], "doc": c["doc"], "seed": 12}
+    # length() counts characters (Unicode scalar values), also above U+FFFF; of arrays / objects their members
+    ldoc = ["a", "\U0001F600", "ab", "\u00e9", "\U0001D11Ex", "", "\U0001F468\u200d\U0001F469", [1, 2], {"k": 1}, [], 5, None,
+            {"a": "\U0001F600", "b": "x"}, {"a": "\U0001F600", "b": "xy"}, {"a": "\U0001D11E\U0001D11E", "b": "ab"}]
+    for n in (0, 1, 2, 3):
+        for op in ("==", "<", ">="):
+            yield {"segs": [["list", ["filter", ["op", op, ["fn", "length", ["self"]], ["lit", n]]]]], "doc": ldoc, "seed": 15}
+    yield {"segs": [["list", ["filter", ["op", "==", ["fn", "length", ["self", ["sel", ["name", "a"]]]], ["fn", "length", ["self", ["sel", ["name", "b"]]]]]]]], "doc": ldoc, "seed": 15}
     # integer literals written with an exponent, up to where a double no longer holds the power of ten exactly
     big = [int(float("1e23")), int(float("2e23")), int(float("3e25")), 10 ** 22, 100, 1500, -20, int(float("1e300"))]
     for v in big:
